@@ -246,6 +246,7 @@ func (c15) Run(t TestingT, scn json.RawMessage, tape *Tape) *Outcome {
 	consWaiting := false
 	sent, got := 0, 0
 	fwdInLoop := false
+	twoReady := false
 	s.OnEvent = func(ev *Event) {
 		switch ev.Site {
 		case "sub.fwd.select":
@@ -331,6 +332,12 @@ func (c15) Run(t TestingT, scn json.RawMessage, tape *Tape) *Outcome {
 			// consumer that stopped, a source that stays open), cancel then
 			fin := s.AddAction("cancel", func() bool { return !cancelled }, func() {
 				cancelled = true
+				// nothing else could move (e.g. a resolver waiting for the end of
+				// the request): if a consumer is blocked in receive while a result
+				// is due, the forwarder's send/Done select is two-ready from here on
+				if prodMidSend || (consWaiting && (sent > got || !fwdInLoop)) {
+					twoReady = true
+				}
 				cancel()
 			})
 			fin.LastResort = true
@@ -415,7 +422,7 @@ func (c15) Run(t TestingT, scn json.RawMessage, tape *Tape) *Outcome {
 	})
 	o.AbsorbSim(s)
 	o.KeepTrace(s)
-	o.NonDet = sc.BothReady
+	o.NonDet = sc.BothReady || twoReady
 	outs := s.Outs["sub"]
 	// ---- history
 	idxCancel := -1
